@@ -790,7 +790,11 @@ func c11RunConsul(h *c11SrcHistory, strict bool, report c11SrcReport) (loads, ev
 		if !ok && asked > 25 {
 			qs := kv.Queries()
 			lastq := qs[len(qs)-1]
-			report("spin", step.Kind, step.Content, "", fmt.Sprintf("after load %d (%s %s) the consul source sent %d list queries in %v without catching up: it keeps waiting for index %d while the store is at %d, so every query returns at once",
+			dmg := ""
+			if step.Kind == "unusable" || step.Kind == "error" {
+				dmg = step.Content
+			}
+			report("spin", step.Kind, dmg, "", fmt.Sprintf("after load %d (%s %s) the consul source sent %d list queries in %v without catching up: it keeps waiting for index %d while the store is at %d, so every query returns at once",
 				j+1, step.Kind, step.Content, asked, time.Since(t0), lastq.Index, lastq.Cur))
 			return loads, evals, nil
 		}
